@@ -5,6 +5,7 @@ package main
 
 import (
 	"fmt"
+	"os"
 	"go/token"
 	"go/types"
 	"sort"
@@ -48,7 +49,10 @@ func (e *Engine) VerifyFunc(fn *ssa.Function, opts VerifyOpts) (res *FuncResult)
 			case specErr:
 				res.ContractErr = er.msg
 			default:
-				panic(r)
+				if os.Getenv("GOVC_PANIC") != "" {
+					panic(r)
+				}
+				res.Unsupported = fmt.Sprintf("internal error: %v", r)
 			}
 		}
 		res.Obligs = ctx.obligs
@@ -99,6 +103,10 @@ func (e *Engine) VerifyFunc(fn *ssa.Function, opts VerifyOpts) (res *FuncResult)
 			f.ghosts[g.Name] = v
 		}
 	}
+	if ct != nil && (ct.ModifiesSet || ct.Fresh) {
+		f.modLocs = f.evalModLocs(ct, st)
+		f.checkFrame = true
+	}
 	if opts.ExtraPre != nil {
 		for _, t := range opts.ExtraPre(f, st) {
 			ctx.assume(t)
@@ -122,7 +130,7 @@ func (e *Engine) VerifyFunc(fn *ssa.Function, opts VerifyOpts) (res *FuncResult)
 			se := f.specEnv(exit, pre)
 			se.results = rs
 			se.positive = false
-			se.wit = en.Wit
+			se.wit, se.witParam = en.Wit, en.WitParam
 			se.presite = "pre"
 			t := se.evalBool(en.Expr)
 			label := en.Label
@@ -177,7 +185,7 @@ func (f *Frame) contractCall(st *State, r *Term, target *ssa.Function, tmap TMap
 	for i, rq := range ct.Requires {
 		se := cf.specEnv(pre, pre)
 		se.positive = false
-		se.wit = rq.Wit
+		se.wit, se.witParam = rq.Wit, rq.WitParam
 		t := se.evalBool(rq.Expr)
 		label := rq.Label
 		if label == "" {
@@ -209,48 +217,48 @@ func (f *Frame) contractCall(st *State, r *Term, target *ssa.Function, tmap TMap
 	// effects
 	if !ct.Pure {
 		eff := &effects{top: true}
-		if len(target.Blocks) > 0 || ct.Trusted {
-			if len(target.Blocks) > 0 {
-				eff = ctx.eng.effectsOf(target, f)
-			}
+		if len(target.Blocks) > 0 {
+			eff = ctx.eng.effectsOf(target, f)
 		}
-		if ct.ModifiesSet {
-			eff = cf.modifiesEffects(ct, pre)
-		}
-		comps := eff.comps
-		if eff.top {
-			if ct.Fresh {
-				comps = map[string]Sort{}
+		if ct.ModifiesSet || ct.Fresh {
+			locs := cf.evalModLocs(ct, pre)
+			f.frameCheckCall(r, calleeShort, locs, true, pos)
+			comps := map[string]Sort{}
+			if eff.top {
 				for k, v := range ctx.eng.compSeen {
 					comps[k] = v
 				}
 			} else {
-				f.havocTop(st)
-				comps = nil
+				for k, v := range eff.comps {
+					comps[k] = v
+				}
 			}
-		}
-		if comps != nil {
+			for _, l := range locs {
+				comps[l.comp] = l.srt
+			}
 			old := copyHeap(st.heap)
 			oldBase := st.base
 			f.havocComps(st, comps)
-			if ct.Fresh {
-				names := make([]string, 0, len(comps))
-				for k := range comps {
-					names = append(names, k)
+			names := make([]string, 0, len(comps))
+			for k := range comps {
+				names = append(names, k)
+			}
+			sort.Strings(names)
+			for _, k := range names {
+				before, ok := old[k]
+				if !ok {
+					before = ctx.constant(fmt.Sprintf("%s@%d", k, oldBase), comps[k])
 				}
-				sort.Strings(names)
-				rq := Atom("r!fr", SInt)
-				for _, k := range names {
-					if strings.HasPrefix(k, "G.") {
-						continue
-					}
-					before, ok := old[k]
-					if !ok {
-						before = ctx.constant(fmt.Sprintf("%s@%d", k, oldBase), comps[k])
-					}
-					after := st.heap[k]
-					ctx.assume(Forall([]*Term{rq}, Implies(Lt(rq, pre.alloc), Eq(Select(after, rq), Select(before, rq))), []*Term{Select(after, rq)}))
-				}
+				ctx.assume(f.frameAxiom(k, before, st.heap[k], locs, pre.alloc))
+			}
+		} else {
+			if eff.top || len(eff.comps) > 0 {
+				f.frameCheckCall(r, calleeShort, nil, false, pos)
+			}
+			if eff.top {
+				f.havocTop(st)
+			} else {
+				f.havocComps(st, eff.comps)
 			}
 		}
 	}
@@ -282,35 +290,3 @@ func (f *Frame) contractCall(st *State, r *Term, target *ssa.Function, tmap TMap
 	return out
 }
 
-// modifiesEffects translates a modifies clause (a list of component patterns) into effects.
-// Supported items: "nothing", "F.<Type>.<field>", "E.<sort>", "MD.*"/"MV.*" names as printed in evidence.
-func (cf *Frame) modifiesEffects(ct *Contract, pre *State) *effects {
-	eff := &effects{comps: map[string]Sort{}}
-	for _, m := range ct.Modifies {
-		if m == "nothing" {
-			continue
-		}
-		if s, ok := cf.ctx.eng.compSeen[m]; ok {
-			eff.comps[m] = s
-			continue
-		}
-		// expression form: x.f  => the component of that field
-		e, err := ParseSpecExpr(m)
-		if err != nil || e.Kind != SField {
-			sfail("unsupported modifies item %q", m)
-		}
-		se := cf.specEnv(pre, pre)
-		x := se.eval(e.Args[0])
-		p, ok := cf.subst(x.T).Underlying().(*types.Pointer)
-		if !ok {
-			sfail("modifies item %q: not a pointer field", m)
-		}
-		si := cf.structInfo(p.Elem())
-		i := si.FieldIndex(e.Name)
-		if i < 0 {
-			sfail("modifies item %q: no such field", m)
-		}
-		eff.comps[compF(si, i)] = ArrS(SInt, si.Fields[i].Sort)
-	}
-	return eff
-}
